@@ -104,7 +104,7 @@ def _worker(job):
     rng = random.Random(seedstr)
     out = []
     for _ in range(n):
-        prof = rng.choice(["mixed", "o2m", "tree", "m2m", "cycle", "inherit"])
+        prof = rng.choice(["mixed", "o2m", "tree", "m2m", "cycle", "inherit", "oneway", "graph", "unit", "peer", "owner"])
         setup, work = G.gen_fault_case(rng, prof)
         try:
             ref = G.fault_case(setup, work, ("dml", 10 ** 9))
@@ -188,7 +188,7 @@ def corpus(ctx):
         c = e.get("replay") or {}
         if c.get("part") != "A":
             continue
-        o = G.fault_case(c["setup"], c["work"], tuple(c["fault"]))
+        o = G.fault_case(c["setup"], c["work"], tuple(c["fault"]), raw=bool(c.get("raw")))
         bad = verdict(o)
         ctx.case(("corpus", c["work"], c["fault"]))
         if bad:
@@ -201,7 +201,7 @@ def run(ctx, deep=False):
     from harness import lib_uow_gen as G
 
     ctx.rule = (
-        "part A: generated transactions over six relationship families (0-2 committed setup rounds, then 3-8 mutations), failed at 2 seeded "
+        "part A: generated transactions over fourteen relationship families (harness/lib_graph.py) (0-2 committed setup rounds, then 3-8 mutations), failed at 2 seeded "
         "(quick) / all (thorough) statement positions of their flushes, by one flush-event exception and (half of them) by a unique violation; "
         "part B: seeded random single-class histories (conflicting primary keys, phantom rows, pk changes, savepoints) compared with the "
         "model after every operation; non-trivial = the fault fired (A) / a lifecycle event fired (B)"
@@ -234,7 +234,7 @@ def replay(ctx, obj):
     if c.get("part") == "A":
         from harness import lib_graph as G
 
-        o = G.fault_case(c["setup"], c["work"], tuple(c["fault"]))
+        o = G.fault_case(c["setup"], c["work"], tuple(c["fault"]), raw=bool(c.get("raw")))
         bad = verdict(o)
         print("replay C32/A work=%s fault=%s raised=%s" % (c["work"], c["fault"], o.get("error")))
         for b in bad:
